@@ -431,9 +431,31 @@ Definition refs_exist (w : wf) : bool :=
 Definition graph_of (w : wf) : list (cid * list cid) :=
   map (fun c => (c_id c, filter (fun r => kmem cid_eqb r (ids w)) (c_refs c))) (w_comps w).
 
+(* FlowIRConcrete.instance resolves the global variables among themselves first and stores the result in place: a
+   global all of whose (transitive) mentions are global variables is a CONSTANT by the time a component is resolved
+   (its mentions were bound to the global values, whatever the component shadows); a global that cannot be resolved
+   there (FlowIRVariableUnknown is only logged) keeps its text and is resolved with the variables of the component *)
+Fixpoint vlookup (n : string) (vs : list (string * list string)) : option (list string) :=
+  match vs with
+  | [] => None
+  | (k, rs) :: r => if String.eqb n k then Some rs else vlookup n r
+  end.
+
+Fixpoint gres (vs : list (string * list string)) (fuel : nat) (n : string) : bool :=
+  match fuel with
+  | O => false
+  | S f => match vlookup n vs with
+           | None => false
+           | Some rs => forallb (gres vs f) rs
+           end
+  end.
+
+Definition gresolved (w : wf) (n : string) : bool := gres (w_gvars w) (length (w_gvars w)) n.
+
 (* variables visible to a component: its own, then the global ones it does not shadow *)
 Definition env_of (w : wf) (c : comp) : list (string * list string) :=
-  c_vars c ++ filter (fun gv => negb (kmem String.eqb (fst gv) (map fst (c_vars c)))) (w_gvars w).
+  c_vars c ++ map (fun gv => (fst gv, if gresolved w (fst gv) then [] else snd gv))
+                  (filter (fun gv => negb (kmem String.eqb (fst gv) (map fst (c_vars c)))) (w_gvars w)).
 
 Definition vars_defined (w : wf) (c : comp) : bool :=
   let env := env_of w c in
@@ -570,3 +592,7 @@ Definition check_load_case (cs : schema) (c : wf * bool * list nat) : bool :=
   let '(w, acc, rs) := c in
   Bool.eqb (accept cs w) acc &&
   forallb (fun r => if Nat.eqb r 0 then negb (accept cs w) else existsb (Nat.eqb r) (reasons cs w)) rs.
+
+(* (well-formed workflow, fault, the mutant is accepted by the real loader): the model's own [mutate] *)
+Definition check_mutant_case (cs : schema) (c : wf * fault * bool) : bool :=
+  let '(w, m, acc) := c in Bool.eqb (accept cs (mutate m w)) acc.
